@@ -1,6 +1,7 @@
 package main
 
 import (
+	"regexp"
 	"encoding/json"
 	"fmt"
 	"os"
@@ -84,6 +85,10 @@ func matchFinding(fs []finding, prop, name string) *finding {
 var propKinds = map[string]map[string]bool{
 	"C10": {"frame": true, "post": true, "inv-entry": true, "inv-keep": true, "pre": true, "pre-recv": true, "cast": true, "cover": true, "lemma": true, "oncall": true},
 }
+
+var dupSuffix = regexp.MustCompile(`~[0-9]+`)
+
+func baseName(n string) string { return dupSuffix.ReplaceAllString(n, "") }
 
 func hasProp(ps []string, p string) bool {
 	for _, q := range ps {
@@ -241,7 +246,9 @@ func runCheck(p *vc.Program, prop, tier string) int {
 			knownLines = append(knownLines, fmt.Sprintf("KNOWN-FINDING: property=%s %s: %s [%s]", prop, ob.Name, f.What, f.Input))
 			continue
 		}
-		inLedger := led != nil && led.Obligations[ob.Name] == "unsat"
+		// a second emission of the same clause at the same site (another back edge
+		// or call path, suffix ~n) stands or falls with the first
+		inLedger := led != nil && (led.Obligations[ob.Name] == "unsat" || led.Obligations[baseName(ob.Name)] == "unsat")
 		if r.Ans.Status == solve.Unknown && !inLedger && led != nil {
 			undecided = append(undecided, ob.Name+" ("+r.Ans.Detail+")")
 			continue
